@@ -1,6 +1,6 @@
 """C12 - structured multi-line fields round-trip as records and can always be dumped.
 
-case = {"kind":  "build" | "parse" | "newline",
+case = {"kind":  "build" | "parse" | "newline" | "edit",
         "cls":   "Dsc" | "Changes" | "BuildInfo" | "Release" | "PdiffIndex",
         "dak":   bool                       (Release only: size_field_behavior = "dak")
         "items": [ ["s", field, [[token, ...], ...], single_line], ["p", name, value], ... ]
@@ -8,7 +8,21 @@ case = {"kind":  "build" | "parse" | "newline",
         "fold":  [field, ...]               (parse: fields written with their first record on the header line)
         "want":  null | [name, ...]         (parse: the documented fields= parameter, null = not passed)
         "via":   "ctor" | "iter"            (parse: cls(text, ...) or the one paragraph of cls.iter_paragraphs(text, ...))
-        "nl":    [item, record, component, position]   (newline: where a "\\n" is injected)}
+        "nl":    [item, record, component, position]   (newline: where a "\\n" is injected)
+        "ops":   [op, ...]                  (build, parse: ordinary mapping operations applied to the
+                                             paragraph between building / parsing it and dumping it)
+        "start": "build" | "parse", "steps": [step, ...]   (edit)}
+
+  op       ["sort"] | ["sortkey", "lower"|"reversed"|"length"] | ["first", i] | ["last", i] |
+           ["before", i, j] | ["after", i, j] | ["copy"]: sort_fields(), sort_fields(key=...),
+           order_first/last/before/after(field[, reference]) (i, j index the paragraph's fields modulo
+           their number; i == j is skipped) and "go on with paragraph.copy()".  None of them touches a
+           value, so the paragraph must dump every field it was given, each laid out exactly as
+           without the operation.  WHERE the fields end up is those methods' business, not this
+           property's: after an operation the dump must hold the same field names (any order).
+           copy() is not asserted to succeed (it raises on the pinned tree as soon as a structured
+           field is present - reported, outside the statement); when it does, the copy is dumped.
+  step     ["set"|"setlower"|"inplace", item] | ["del", k] | op
 
   build    assign the records (lists of dicts keyed by the documented sub-field names) into an
            empty instance in the order of "items", dump, inspect the text, parse it again
@@ -21,6 +35,18 @@ case = {"kind":  "build" | "parse" | "newline",
            position): the result must hold exactly those fields, each with exactly its own
            records / value, and must dump like a paragraph that only ever held them.
   newline  as build, but one component contains a newline: dump must raise ValueError
+  edit     one object, several dumps: after building / parsing, each step assigns a field (documented
+           or lower-case spelling), changes a record list through the list object, deletes a field or
+           applies a mapping operation; after every step the dump must be the one of a paragraph
+           that holds just the current content
+
+Empty record lists ("any list of whitespace-free records" includes the list of none): only in the
+build direction and in edit steps (the text 'Field:' + nothing parses to an empty single-line
+mapping, which is not a record list, so the parse direction has no spelling for it).  Demanded:
+dump() does not raise, the text is one paragraph (no empty line) with the bare header 'Field:',
+every OTHER field is laid out as usual and re-parses to its records, the empty field re-parses to
+zero records.  Not demanded: re-dumping the re-parsed paragraph, and - tolerated and labelled, see
+ASSUMPTIONS - the ValueError that PdiffIndex and Release(dak) raise for an empty list.
 
 A structured item lists its tokens in the documented sub-field order of DOC below; "single_line"
 (only for the *-Current fields of a pdiff Index) selects the one-record form written on the field's
@@ -38,6 +64,7 @@ from debian import deb822
 ID = "C12"
 LEVEL = "exploration"
 RULE = ("cases are (class x Release size_field_behavior, ordered list of structured fields with 1..4 "
+        "(build direction and edit steps: 0..4) "
         "records of whitespace-free tokens each and 0..3 ordinary fields, direction build|parse); "
         "enumerated: every subset of the four structured fields of Dsc, Changes, BuildInfo, "
         "Release(apt-ftparchive), Release(dak) and of the 14 fields of PdiffIndex (quick: subsets "
@@ -46,7 +73,16 @@ RULE = ("cases are (class x Release size_field_behavior, ordered list of structu
         "tokens) x both directions; generated: Hypothesis subsets (sparse, half, dense), permuted "
         "assignment order, tokens from a 70-token pool of format meta-characters and non-ASCII "
         "letters, sizes of 1..18 digits, harness padding 0/16/20, newline injection; edit histories "
-        "(1..3 assignments / in-place list changes / deletions on one object, a dump after each). "
+        "(1..3 assignments / in-place list changes / deletions / mapping operations on one object, a "
+        "dump after each). Mapping operations (sort_fields() with and without key=, order_first / "
+        "order_last / order_before / order_after, copy()) are also an option of build and parse cases "
+        "(0..3 of them between building / parsing and the dump; afterwards the dump must hold the same "
+        "field names in any order, each laid out as usual) and have an enumerated source: every "
+        "non-empty subset of the four-field classes, PdiffIndex all / all-but-one / one field, x "
+        "{build, parse} x 11 operation lists. Empty record lists: one field of a third of the "
+        "generated build cases, a fifth of the items of edit steps; enumerated: every non-empty subset "
+        "of the four-field classes x each present field (and all of them) empty, PdiffIndex all / one "
+        "field, and edit histories that empty each field by assignment / in place after build / parse. "
         "Parse direction additionally: layout (bare 'Field:' header + one line per record, or the "
         "folded spelling with record 0 on the header line for any subset of the fields with >= 2 "
         "records), the documented fields= parameter (any non-empty subset of the fields in the text, "
@@ -57,13 +93,26 @@ RULE = ("cases are (class x Release size_field_behavior, ordered list of structu
         "sub-subset, wanted ordinary fields, entry point, layout), for PdiffIndex all/all-but-one/one "
         "field present x wanted all-but-one/one/every-other. "
         "Non-trivial = a non-empty strict subset of the class's structured fields is present (in the "
-        "text or, with fields=, in the result) or an edit history with >= 1 applied step; "
+        "text or, with fields=, in the result), an edit history with >= 1 applied step, or >= 1 mapping "
+        "operation applied; "
         "distinct = distinct canonical JSON")
 ASSUMPTIONS = [
     "sub-field names and column order are the table in the module docstring of deb822.py (copied "
     "into DOC); BuildInfo is not listed there, its names are those of deb-buildinfo(5)'s "
     "Checksums-* fields as spelt by the class at the pinned commit",
-    "record lists hold 1..4 records (an empty list has no spelling that parses back to a list)",
+    "record lists hold 0..4 records; the empty list only where a paragraph is built or edited "
+    "(the text 'Field:' alone parses to an empty single-line mapping, not to a list, and dumping "
+    "THAT raises KeyError on the pinned tree for every class - reported, not asserted: the parse "
+    "direction and the re-dump of a re-parsed paragraph leave empty fields out)",
+    "an empty list in a PdiffIndex or a Release(dak) makes dump() raise ValueError (max() of no "
+    "sizes) on the pinned tree; reported as a possible defect, NOT asserted: exactly that "
+    "exception type in exactly those two configurations, with an empty list present, is labelled "
+    "'empty-list:dump-raises-ValueError(tolerated)' and nothing is checked on that dump; every "
+    "other class must dump an empty list",
+    "mapping operations: where sort_fields / order_* put the fields is not part of this property; "
+    "after one the dump must hold the same set of field names and lay each one out as before. "
+    "copy() may raise (it does on the pinned tree whenever a structured field is present - "
+    "reported); a Release copy gets size_field_behavior set again by the harness",
     "tokens are non-empty, printable, whitespace-free strings; sizes are digit strings",
     "alignment: one blank, hash, one blank, size right-aligned in a column of width W "
     "(16 for apt-ftparchive, longest size of that field for dak and PdiffIndex); a size longer "
@@ -79,10 +128,10 @@ ASSUMPTIONS = [
 EXHAUSTIVE = {
     "quick": "all 16 subsets of the structured fields of Dsc, Changes, BuildInfo, Release x {apt-ftparchive, dak}; "
              "all subsets of size <=2 or >=12 of the 14 PdiffIndex fields; x 3 record sets x {build, parse}; "
-             "parse-layouts-and-field-filters: see that source's description",
+             "parse-layouts-and-field-filters, mapping-operations, empty-record-lists: see those sources' descriptions",
     "thorough": "all 16 subsets of the structured fields of Dsc, Changes, BuildInfo, Release x {apt-ftparchive, dak}; "
                 "all 2^14 subsets of the PdiffIndex fields; x 3 record sets x {build, parse}; "
-                "parse-layouts-and-field-filters: see that source's description",
+                "parse-layouts-and-field-filters, mapping-operations, empty-record-lists: see those sources' descriptions",
 }
 BUDGET = {"quick": 300, "thorough": 1500}
 
@@ -154,6 +203,24 @@ def _token_ok(t):
     return isinstance(t, str) and t != "" and t.isprintable() and not any(c.isspace() for c in t)
 
 
+SORT_KEYS = {"lower": lambda k: k.lower(), "reversed": lambda k: k.lower()[::-1], "length": len}
+MAPOPS = ("sort", "sortkey", "first", "last", "before", "after", "copy")
+
+
+def _index_ok(x):
+    return isinstance(x, int) and not isinstance(x, bool) and x >= 0
+
+
+def valid_op(op):
+    if not isinstance(op, list) or not op or op[0] not in MAPOPS:
+        return False
+    if op[0] in ("sort", "copy"):
+        return len(op) == 1
+    if op[0] == "sortkey":
+        return len(op) == 2 and isinstance(op[1], str) and op[1] in SORT_KEYS
+    return len(op) == (3 if op[0] in ("before", "after") else 2) and all(_index_ok(x) for x in op[1:])
+
+
 def valid_case(case):
     if not isinstance(case, dict) or case.get("kind") not in ("build", "parse", "newline", "edit"):
         return False
@@ -162,6 +229,10 @@ def valid_case(case):
         if not isinstance(steps, list) or case.get("start") not in ("build", "parse"):
             return False
         for st_ in steps:
+            if isinstance(st_, list) and st_ and st_[0] in MAPOPS:
+                if not valid_op(st_):
+                    return False
+                continue
             if not isinstance(st_, list) or not st_ or st_[0] not in ("set", "setlower", "inplace", "del"):
                 return False
             if st_[0] == "del":
@@ -173,6 +244,12 @@ def valid_case(case):
         return False
     sub = SUBFIELDS[case["cls"]]
     seen = set()
+    # an empty record list only where the paragraph is built (see the module docstring)
+    min_records = 0 if (case["kind"] == "build" or (case["kind"] == "edit" and case["start"] == "build")) else 1
+    if case["kind"] in ("build", "parse"):
+        ops = case.get("ops", [])
+        if not isinstance(ops, list) or not all(valid_op(op) for op in ops):
+            return False
     for it in case["items"]:
         if not isinstance(it, list) or not it:
             return False
@@ -187,7 +264,7 @@ def valid_case(case):
             if len(it) != 4 or it[1] not in sub or not isinstance(it[2], list):
                 return False
             name, recs, single = it[1], it[2], it[3]
-            if not 1 <= len(recs) <= 4:
+            if not min_records <= len(recs) <= 4:
                 return False
             if single and (not is_current(name) or len(recs) != 1):
                 return False
@@ -232,8 +309,13 @@ def make_instance(case):
     return cls, o
 
 
-def dump_or_violation(o, case, phase):
-    """o.dump(); any exception is the property's 'dumping never fails' clause being broken."""
+def has_empty(items):
+    return any(it[0] == "s" and not it[3] and not it[2] for it in items)
+
+
+def dump_or_violation(o, case, phase, labels=None):
+    """o.dump(); any exception is the property's 'dumping never fails' clause being broken.
+    (``labels`` is kept for callers; no failure is tolerated any more since the empty-list repair.)"""
     try:
         text = o.dump()
     except Exception as e:  # pylint: disable=broad-except
@@ -258,6 +340,9 @@ def split_dump(text, phase):
             out[-1][2].append(line)
         else:
             name, colon, rest = line.partition(":")
+            if line == "":
+                raise Violation("dump-layout", "%s: empty line inside the dumped paragraph (re-parsing stops there): %s" % (
+                    phase, short(text, 150)))
             if not colon:
                 raise Violation("dump-layout", "%s: line without colon %s" % (phase, short(line, 120)))
             out.append((name, rest, []))
@@ -271,16 +356,22 @@ def width_for(case, recs_tokens, names):
     return max(len(r[si]) for r in recs_tokens)
 
 
-def check_layout(text, case, phase):
-    """Column order for every class, size-column alignment for Release and PdiffIndex."""
+def check_layout(text, case, phase, any_order=False):
+    """Column order for every class, size-column alignment for Release and PdiffIndex.
+    Returns the items in the order of the dump (any_order: after a mapping operation the dump must
+    hold the same names, wherever the operation put them)."""
     sub = SUBFIELDS[case["cls"]]
     fields = split_dump(text, phase)
     got_names = [f[0] for f in fields]
     exp_names = [it[1] for it in case["items"]]
-    if got_names != exp_names:
-        raise Violation("dump-field-list", "%s: dump has fields %s, paragraph was given %s" % (
-            phase, short(got_names, 150), short(exp_names, 150)))
-    for (name, rest, cont), it in zip(fields, case["items"]):
+    items = case["items"]
+    if any_order and sorted(got_names) == sorted(exp_names):
+        by_name = dict((it[1], it) for it in items)
+        items = [by_name[n] for n in got_names]
+    elif got_names != exp_names:
+        raise Violation("dump-field-list", "%s: dump has fields %s, paragraph was given %s%s" % (
+            phase, short(got_names, 150), short(exp_names, 150), " (any order)" if any_order else ""))
+    for (name, rest, cont), it in zip(fields, items):
         if it[0] == "p":
             continue
         names, recs, single = sub[name], it[2], it[3]
@@ -296,7 +387,7 @@ def check_layout(text, case, phase):
             if line.split() != r:
                 raise Violation("dump-columns", "%s: %s record %s dumped as %s (documented order %s)" % (
                     phase, name, short(r, 100), short(line, 100), ", ".join(names)))
-        if case["cls"] in ALIGNED:
+        if case["cls"] in ALIGNED and recs:
             w = width_for(case, recs, names)
             si = names.index("size")
             for line, r in zip(cont, recs):
@@ -308,6 +399,7 @@ def check_layout(text, case, phase):
                 if col != max(w, len(r[si])):
                     raise Violation("size-alignment", "%s: %s (%s): size column of %r is %d wide, documented width %d" % (
                         phase, name, config_tag(case), line, col, w))
+    return items
 
 
 def compare_records(o, case, phase):
@@ -328,6 +420,11 @@ def compare_records(o, case, phase):
             v = o[name]
         except KeyError:
             raise Violation("structured-field-missing", "%s: %s not in the parsed paragraph" % (phase, name))
+        if not recs:
+            # 'Field:' alone: zero records, whatever container the class chooses for them
+            if not hasattr(v, "__len__") or len(v) != 0:
+                raise Violation("record-count", "%s: %s was given no records, reads %s" % (phase, name, short(v, 100)))
+            continue
         if single:
             if not hasattr(v, "keys"):
                 raise Violation("record-shape", "%s: single-line %s parsed as %s" % (phase, name, short(v, 100)))
@@ -363,6 +460,50 @@ def assign_items(o, case, items):
         else:
             dicts = [dict(zip(sub[it[1]], r)) for r in it[2]]
             o[it[1]] = dicts[0] if it[3] else dicts
+
+
+def apply_op(o, case, op, names, labels):
+    """One ordinary mapping operation on the paragraph; names = its current field names.
+    Returns (the object to go on with, whether anything was done)."""
+    kind = op[0]
+    if not names:
+        return o, False
+    if kind == "sort":
+        o.sort_fields()
+    elif kind == "sortkey":
+        o.sort_fields(key=SORT_KEYS[op[1]])
+    elif kind == "first":
+        o.order_first(names[op[1] % len(names)])
+    elif kind == "last":
+        o.order_last(names[op[1] % len(names)])
+    elif kind in ("before", "after"):
+        i, j = op[1] % len(names), op[2] % len(names)
+        if i == j:
+            return o, False
+        (o.order_before if kind == "before" else o.order_after)(names[i], names[j])
+    else:
+        try:
+            c = o.copy()
+        except Exception:  # pylint: disable=broad-except
+            # not this property's business (and the pinned tree cannot copy a paragraph that
+            # holds a structured field): the original must go on working
+            labels.add("op:copy-raises(not asserted)")
+            return o, False
+        if case["cls"] == "Release" and case.get("dak"):
+            c.size_field_behavior = "dak"
+        o = c
+    labels.add("op:" + (kind if kind != "sortkey" else "sortkey-" + op[1]))
+    return o, True
+
+
+def apply_ops(o, case, items, labels):
+    """case["ops"] between building / parsing and dumping; returns (object, number applied)."""
+    n = 0
+    names = [it[1] for it in items]
+    for op in case.get("ops", []):
+        o, done = apply_op(o, case, op, names, labels)
+        n += 1 if done else 0
+    return o, n
 
 
 def harness_text(case):
@@ -413,6 +554,10 @@ def labels_of(case):
     for it in sitems:
         si = sub[it[1]].index("size")
         lens = [len(r[si]) for r in it[2]]
+        if not lens:
+            labels.add("empty-list")
+            labels.add("empty-list:" + ("last-field" if it is case["items"][-1] else "fields-after-it"))
+            continue
         lens_per_field.append(max(lens))
         for l in lens:
             labels.add("size-width:" + ("<16" if l < 16 else "=16" if l == 16 else ">16"))
@@ -438,6 +583,8 @@ def labels_of(case):
     if idx != sorted(idx):
         labels.add("fields-out-of-documented-order")
     nontrivial = 0 < n < len(sub)
+    if case["kind"] in ("build", "parse"):
+        labels.add("ops:%d" % len(case.get("ops", [])))
     if case["kind"] == "parse":
         labels.add("harness-pad:%d" % case.get("pad", 0))
         labels.add("via:" + case.get("via", "ctor"))
@@ -479,12 +626,19 @@ def check(case):
     if kind == "build":
         cls, o = make_instance(case)
         assign_items(o, case, case["items"])
-        text = dump_or_violation(o, case, "built")
-        check_layout(text, case, "built")
+        o, nops = apply_ops(o, case, case["items"], labels)
+        phase = "built, %d mapping operations" % nops if nops else "built"
+        nontrivial = nontrivial or nops > 0
+        text = dump_or_violation(o, case, phase, labels)
+        if text is None:
+            return (nontrivial, sorted(labels))
+        check_layout(text, case, phase, any_order=nops > 0)
         o2 = cls(text)
         if case["cls"] == "Release" and case.get("dak"):
             o2.size_field_behavior = "dak"
         compare_records(o2, case, "dump re-parsed")
+        if has_empty(case["items"]):
+            labels.add("empty-list:re-dumped")
         text2 = dump_or_violation(o2, case, "re-parsed")
         if text2 != text:
             raise Violation("redump-differs", "dump %s, dump of its parse %s" % (short(text, 150), short(text2, 150)))
@@ -517,8 +671,12 @@ def check(case):
                 raise Violation("fields-filter-field-list", "%s: paragraph holds %s, the text's wanted fields are %s" % (
                     phase, short(got_names, 150), short(exp_names, 150)))
         compare_records(o, exp, phase)
+        o, nops = apply_ops(o, case, exp["items"], labels)
+        if nops:
+            phase += ", %d mapping operations" % nops
+            nontrivial = True
         d = dump_or_violation(o, exp, phase)
-        check_layout(d, exp, phase)
+        check_layout(d, exp, phase, any_order=nops > 0)
         o3 = cls(d)
         compare_records(o3, exp, phase + ", dumped, parsed")
 
@@ -535,12 +693,18 @@ def check(case):
             if case["cls"] == "Release" and case.get("dak"):
                 o.size_field_behavior = "dak"
         cur = [list(it) for it in case["items"]]
-        text = dump_or_violation(o, case, "before edits")
-        check_layout(text, dict(case, items=cur), "before edits")
+        text = dump_or_violation(o, case, "before edits", labels)
+        if text is not None:
+            check_layout(text, dict(case, items=cur), "before edits")
         nsteps = 0
+        loose = False       # a mapping operation was applied and no dump has shown the new order yet
         for step in case["steps"]:
             op = step[0]
-            if op == "del":
+            if op in MAPOPS:
+                o, done = apply_op(o, case, step, [c[1] for c in cur], labels)
+                if not done:
+                    continue
+            elif op == "del":
                 if len(cur) <= 1:
                     continue
                 k = step[1] % len(cur)
@@ -548,6 +712,8 @@ def check(case):
                 del cur[k]
             else:
                 it = list(step[1])
+                if it[0] == "s" and not it[3] and not it[2]:
+                    labels.add("edit:to-empty-list")
                 pos = [i for i, c in enumerate(cur) if c[1].lower() == it[1].lower()]
                 if op == "inplace":
                     # change the records of a multi-line field through the list object itself
@@ -574,8 +740,14 @@ def check(case):
             nsteps += 1
             now = dict(case, items=cur)
             phase = "after edit %d (%s)" % (nsteps, op)
-            text = dump_or_violation(o, now, phase)
-            check_layout(text, now, phase)
+            loose = loose or op in MAPOPS
+            text = dump_or_violation(o, now, phase, labels)
+            if text is None:
+                continue
+            # after a mapping operation: same names wherever they went; the model follows the dump
+            cur = check_layout(text, now, phase, any_order=loose)
+            loose = False
+            now = dict(case, items=cur)
             o2 = cls(text)
             compare_records(o2, now, phase + ", re-parsed")
         if nsteps:
@@ -748,6 +920,71 @@ def enum_layout_cases(full):
     return gen
 
 
+def pdiff_corner_masks():
+    n = len(DOC["PdiffIndex"])
+    top = (1 << n) - 1
+    return [top] + [top & ~(1 << i) for i in range(n)] + [1 << i for i in range(n)]
+
+
+FOUR = (("Dsc", False), ("Changes", False), ("BuildInfo", False), ("Release", False), ("Release", True))
+
+
+def enum_mapop_cases():
+    """Ordinary mapping operations between building / parsing and the dump (three records of
+    different size widths per field, an ordinary field first and one last)."""
+    def oplists(n):
+        return [[["sort"]], [["sortkey", "lower"]], [["sortkey", "reversed"]], [["sortkey", "length"]],
+                [["first", n - 1]], [["last", 0]], [["before", n - 1, 0]], [["after", 0, n - 1]], [["copy"]],
+                [["sort"], ["sort"]], [["first", n - 1], ["sortkey", "lower"]]]
+
+    def gen():
+        todo = [(c, d, m) for c, d in FOUR for m in range(1, 16)] + \
+               [("PdiffIndex", False, m) for m in pdiff_corner_masks()]
+        for clsname, dak, mask in todo:
+            for kind in ("build", "parse"):
+                base = enum_case(clsname, dak, mask, 1, kind)
+                for ops in oplists(len(base["items"])):
+                    yield dict(base, ops=ops)
+    return gen
+
+
+MAPOPS_DESC = ("mapping operations between building / parsing and dumping: every non-empty subset of the structured "
+               "fields of Dsc, Changes, BuildInfo, Release x {apt-ftparchive, dak}, PdiffIndex with all / all-but-one / "
+               "one field, x {build, parse} x {sort_fields(), sort_fields(key=lower | reversed name | length), "
+               "order_first(last field), order_last(first), order_before(last, first), order_after(first, last), "
+               "copy(), sort twice, order_first then sort}")
+
+
+def enum_empty_cases():
+    """Record lists of no records: built paragraphs, and lists emptied later on one object."""
+    def gen():
+        for clsname, dak in FOUR:
+            for mask in range(1, 16):
+                base = enum_case(clsname, dak, mask, 1, "build")
+                spos = [i for i, it in enumerate(base["items"]) if it[0] == "s"]
+                for empty in [[i] for i in spos] + ([spos] if len(spos) > 1 else []):
+                    items = [it[:2] + [[], False] if i in empty else it for i, it in enumerate(base["items"])]
+                    yield dict(base, items=items)
+                    if len(empty) == 1:
+                        # ... the same content reached from the full one: by assignment / through the list
+                        for start in ("build", "parse"):
+                            for op in ("set", "inplace"):
+                                yield {"kind": "edit", "cls": clsname, "dak": dak, "items": base["items"], "pad": 0,
+                                       "start": start, "steps": [[op, items[empty[0]]]]}
+        for mask in pdiff_corner_masks()[:1] + pdiff_corner_masks()[15:]:
+            base = enum_case("PdiffIndex", False, mask, 1, "build")
+            for i, it in enumerate(base["items"]):
+                if it[0] == "s":
+                    yield dict(base, items=base["items"][:i] + [it[:2] + [[], False]] + base["items"][i + 1:])
+    return gen
+
+
+EMPTY_DESC = ("empty record lists: every non-empty subset of the structured fields of Dsc, Changes, BuildInfo, Release x "
+              "{apt-ftparchive, dak} x (each present field, and all of them, assigned []) in the build direction, and "
+              "for each single field the same content reached by assigning [] / emptying the list in place on a built / "
+              "parsed paragraph that held three records there; PdiffIndex with all 14 fields / one field, each one empty")
+
+
 LAYOUTS_DESC = ("parse direction: every enumerated subset (three- and two-record sets) with all fields folded; "
                 "fields=: Dsc, Changes, BuildInfo, Release x {apt-ftparchive, dak}: every subset present x every "
                 "sub-subset wanted x every subset of the two ordinary fields wanted x {constructor, iter_paragraphs} "
@@ -771,6 +1008,19 @@ PLAIN_VALUES = ["x", "Debian", "1.0-1", "a b  c", "3.0 (quilt)", "Sat, 07 Apr 20
 CONFIGS = [("Dsc", False), ("Changes", False), ("BuildInfo", False), ("Release", False), ("Release", True),
            ("PdiffIndex", False), ("PdiffIndex", False)]
 NT = len(TOKENS)
+
+
+NOPCODES = 9 * 6 * 6
+
+
+def decode_op(code):
+    """One integer -> one mapping operation (0 = sort_fields(), the simplest)."""
+    k, i, j = code % 9, code // 9 % 6, code // 54
+    if k < 4:
+        return [["sort"], ["sortkey", "lower"], ["sortkey", "reversed"], ["sortkey", "length"]][k]
+    if k == 8:
+        return ["copy"]
+    return [("first", "last", "before", "after")[k - 4], i] + ([j] if k >= 6 else [])
 
 
 @st.composite
@@ -818,6 +1068,15 @@ def gen_case(draw):
         items.insert(code // 8, ["p", PLAIN_NAMES[j], PLAIN_VALUES[code % 8]])
     kind = draw(st.sampled_from(["build", "parse", "build", "parse", "build", "parse", "newline"]))
     case = {"kind": kind, "cls": clsname, "dak": dak, "items": items}
+    if kind == "build":
+        # a third of the built paragraphs hold one multi-line field with no records at all
+        e = draw(st.integers(0, 3 * max(len(items), 1) - 1))
+        if e >= 2 * len(items) and items[e - 2 * len(items)][0] == "s":
+            items[e - 2 * len(items)][2:] = [[], False]
+    if kind in ("build", "parse"):
+        # ordinary mapping operations between building / parsing and the dump (none, mostly)
+        case["ops"] = [decode_op(draw(st.integers(0, NOPCODES - 1)))
+                       for _ in range(max(0, draw(st.integers(0, 5)) - 2))]
     if kind == "parse":
         case["pad"] = draw(st.sampled_from([0, 16, 20, 0]))
         # bit 0: some fields folded, bit 1: parse with fields=, bit 2: through iter_paragraphs
@@ -846,7 +1105,7 @@ def gen_item(draw, clsname, present):
         return ["p", PLAIN_NAMES[draw(st.integers(0, len(PLAIN_NAMES) - 1))], PLAIN_VALUES[draw(st.integers(0, 7))]]
     field, names = draw(st.sampled_from(have)) if (have and pick < 8) else draw(st.sampled_from(fields))
     single = is_current(field) and draw(st.integers(0, 3)) == 0
-    nrec = 1 if single else draw(st.integers(1, 4))
+    nrec = 1 if single else draw(st.integers(1, 5)) % 5          # 5: the empty list
     recs = []
     for _ in range(nrec):
         h, z, r = draw(st.integers(0, NT - 1)), draw(st.integers(0, len(SIZES) - 1)), draw(st.integers(0, NT - 1))
@@ -861,22 +1120,31 @@ def gen_edit_case(draw):
     present = set(it[1] for it in base["items"] if it[0] == "s")
     steps = []
     for _ in range(draw(st.integers(1, 3))):
-        op = draw(st.sampled_from(["set", "set", "setlower", "inplace", "inplace", "del"]))
+        op = draw(st.sampled_from(["set", "set", "setlower", "inplace", "inplace", "del", "mapop", "mapop"]))
         if op == "del":
             steps.append(["del", draw(st.integers(0, 5))])
+        elif op == "mapop":
+            steps.append(decode_op(draw(st.integers(0, NOPCODES - 1))))
         else:
             steps.append([op, draw(gen_item(base["cls"], present))])
+    start = draw(st.sampled_from(["build", "parse"]))
+    if has_empty(base["items"]):
+        start = "build"                 # no text spells an empty record list
     return {"kind": "edit", "cls": base["cls"], "dak": base["dak"], "items": base["items"],
-            "start": draw(st.sampled_from(["build", "parse"])), "pad": 0, "steps": steps}
+            "start": start, "pad": 0, "steps": steps}
 
 
 def sources(tier):
     if tier == "quick":
         return [Enum("field-subsets", enum_cases(False), EXHAUSTIVE["quick"]),
                 Enum("parse-layouts-and-field-filters", enum_layout_cases(False), LAYOUTS_DESC),
+                Enum("mapping-operations", enum_mapop_cases(), MAPOPS_DESC),
+                Enum("empty-record-lists", enum_empty_cases(), EMPTY_DESC),
                 Hyp("records", gen_case(), 350, shards=8),
                 Hyp("edit-histories", gen_edit_case(), 250, shards=6)]
     return [Enum("field-subsets-all", enum_cases(True), EXHAUSTIVE["thorough"]),
             Enum("parse-layouts-and-field-filters", enum_layout_cases(True), LAYOUTS_DESC),
+            Enum("mapping-operations", enum_mapop_cases(), MAPOPS_DESC),
+            Enum("empty-record-lists", enum_empty_cases(), EMPTY_DESC),
             Hyp("records", gen_case(), 5000, shards=16),
             Hyp("edit-histories", gen_edit_case(), 4000, shards=12)]
